@@ -1483,6 +1483,10 @@ func main() {
 		fmt.Sscan(v, &probeN)
 	}
 	reducerProbe(ctx, w, probeN)
+	t0 := time.Now()
+	faultProbe(ctx, w)
+	gateProbe(ctx, w)
+	w.Stat("probe_fault_gate_ms", int(time.Since(t0).Milliseconds()))
 	r := rec.NewRand(o.Seed)
 	for i := 0; i < o.N; i++ {
 		rr := r.Fork()
